@@ -234,10 +234,21 @@ def ts_chunk(rng, ctrl=1, n=188):
     hdr = bytes([0x47, rng.getrandbits(8), rng.getrandbits(8), (rng.randrange(4) << 6) | (ctrl << 4) | rng.randrange(16)])
     return hdr + rng.bytes_(n - 4)
 
+def ts_packet(rng, afc=None):
+    """188 bytes: the library's own encoding of a transport packet it can express exactly (the MPEG family's
+    `pkt_exact`): adaptation control 0/1/2/3, adaptation field with any subset of PCR / OPCR / splice countdown /
+    private data / extension and stuffing, the payload filling the packet"""
+    from . import mpeg as _mpeg
+    for _ in range(8):
+        b = _mpeg._packed("MPEGPacket", _mpeg.pkt_exact(rng, afc=afc)[0])
+        if b is not None and len(b) == 188:
+            return b
+    return ts_chunk(rng)
+
 def video_fields(rng):
     csw = rng.getrandbits(32) & ~(1 << 19)
     return {"channel_specific_word": str(csw), "datastream": str((csw >> 12) & 1),
-            "mpegts": L([hexb(ts_chunk(rng)) for _ in range(rng.randrange(0, 4))])}
+            "mpegts": L([hexb(ts_chunk(rng) if rng.random() < 0.3 else ts_packet(rng)) for _ in range(rng.randrange(0, 4))])}
 
 # =========================================================================================== class registry
 CLASSGEN = {}
@@ -487,11 +498,24 @@ def corr_C04(ctx):
                 continue
             for m in gen.malformed(rng, b, cg.length_fields, max_trunc=ctx.scale(20, 200))[: ctx.scale(60, 2000)]:
                 lines.append(gen.H(cg.cls, [cg.unpack_op(m), "obs"], opts))
-    # video: chunks with every adaptation-control value, short and bad chunks
+    # video: chunks with every adaptation-control value, short and bad chunks (random bytes behind the header: for
+    # control 2/3 that is a garbage adaptation field, decoded and re-encoded — twice, pack mutates the field objects)
     for ctrl in range(4):
         for n in (188, 187, 5, 4):
             b = (0).to_bytes(4, "little") + ts_chunk(rng) + ts_chunk(rng, ctrl, n)
-            lines.append(gen.H("VideoFormat2", ["unpack " + hexb(b), "obs", "pack", "obs"]))
+            lines.append(gen.H("VideoFormat2", ["unpack " + hexb(b), "obs", "pack", "obs", "pack", "obs"]))
+    # video: whole packets WITH adaptation fields (every control value, every subset of adaptation parts)
+    for afc in (0, 1, 2, 3, 2, 3, 3, None, None, None) * ctx.scale(3, 60):
+        cs = [ts_packet(rng, afc)] + [ts_packet(rng) for _ in range(rng.randrange(0, 3))]
+        b = (rng.getrandbits(32) & ~(1 << 19)).to_bytes(4, "little") + b"".join(cs)
+        lines.append(gen.H("VideoFormat2", ["unpack " + hexb(b), "obs", "pack", "obs", "pack", "obs"]))
+        lines.append(gen.H("VideoFormat2", ["set mpegts " + L([hexb(c) for c in cs]), "obs", "pack", "obs", "unpack " + hexb(b), "obs"]))
+        other = list(cs)
+        other[rng.randrange(len(other))] = ts_packet(rng)
+        ops = "set mpegts " + L([hexb(c) for c in cs])
+        lines.append(gen.E("VideoFormat2", [ops], [ops]))
+        lines.append(gen.E("VideoFormat2", [ops, "pack"], [ops]))
+        lines.append(gen.E("VideoFormat2", [ops], ["set mpegts " + L([hexb(c) for c in other])]))
     for b in (b"", b"\x00\x00\x00", b"\x00\x00\x08\x00" + ts_chunk(rng), b"\x00\x10\x00\x00" + ts_chunk(rng), b"\x00\x00\x00\x00" + b"\x48" + bytes(187),
               b"\x00\x00\x00\x00" + ts_chunk(rng) + b"\x47\x00\x00", b"\x00\x00\x00\x00"):
         lines.append(gen.H("VideoFormat2", ["unpack " + hexb(b), "obs", "pack", "obs"]))
@@ -1002,6 +1026,8 @@ def _c04_cases(ctx):
                 cases.append(("csw_data", {"cls": "ComputerGeneratedFormat1", "frmt": frmt, "srcc": srcc, "rccver": rv, "data": rng.bytes_(5).hex()}))
     for cnt in list(range(0, 6)) * m:
         cases.append(("video", {"csw": rng.getrandbits(32) & ~(1 << 19), "chunks": [ts_chunk(rng).hex() for _ in range(cnt)]}))
+        cases.append(("video", {"csw": rng.getrandbits(32) & ~(1 << 19),               # packets with adaptation fields
+                                "chunks": [(ts_packet(rng) if k else ts_packet(rng, rng.choice([2, 3]))).hex() for k in range(cnt)]}))
     return cases
 
 def oracles_C04(ctx, hints):
